@@ -50,6 +50,7 @@ type HarnessSpec struct {
 	Summaries map[string]string `json:"summaries,omitempty"`
 	BudgetAsViolation bool `json:"budget_as_violation,omitempty"`
 	MaxPreempt        int  `json:"max_preempt,omitempty"`
+	MaxPreemptThorough int `json:"max_preempt_thorough,omitempty"`
 }
 
 type Index struct {
@@ -186,6 +187,52 @@ func cmdWorker() int {
 }
 
 // ---- check ----
+
+func schedDependent(v interp.Violation) bool {
+	for _, d := range v.Decisions {
+		if d.Kind == "sched" && d.Choice != 0 {
+			return true
+		}
+	}
+	return false
+}
+
+func jobFor(prop string, h HarnessSpec, inst int, to int, kfOpen []string) interp.Job {
+	return interp.Job{Property: prop, Harness: h.Harness, Pkg: pkgPath(h.Pkg), Instance: inst, Mode: h.Mode, Solver: h.Solver,
+		TimeoutMS: to, MaxSteps: h.MaxSteps, MaxDepth: h.MaxDepth, MaxPaths: h.MaxPaths, SliceS: 15, KFOpen: kfOpen, Summaries: h.Summaries, BudgetAsViolation: h.BudgetAsViolation, MaxPreempt: h.MaxPreempt}
+}
+
+// execConfirm re-executes exactly the recorded path (decision vector including the schedule) in a fresh worker.
+func execConfirm(v interp.Violation, specs []HarnessSpec) (bool, string) {
+	var h *HarnessSpec
+	for i := range specs {
+		if specs[i].Harness == v.Harness {
+			h = &specs[i]
+		}
+	}
+	if h == nil {
+		return false, "no harness spec"
+	}
+	w, err := startWorker()
+	if err != nil {
+		return false, err.Error()
+	}
+	defer w.stop()
+	j := jobFor(h.Property, *h, v.Instance, h.TimeoutMS, nil)
+	j.Prefixes = [][]interp.Decision{v.Decisions}
+	j.MaxPaths = 1
+	j.SliceS = 600
+	r, err := w.run(j)
+	if err != nil {
+		return false, err.Error()
+	}
+	for _, rv := range r.Violations {
+		if rv.Msg == v.Msg {
+			return true, "same violation again"
+		}
+	}
+	return false, fmt.Sprintf("path ended differently: %v", r.Ends)
+}
 
 type worker struct {
 	cmd *exec.Cmd
@@ -363,8 +410,11 @@ func cmdCheck(args []string) int {
 			if *onlyInst >= 0 && i != *onlyInst {
 				continue
 			}
-			jobs = append(jobs, interp.Job{Property: prop, Harness: h.Harness, Pkg: pkgPath(h.Pkg), Instance: i, Mode: h.Mode, Solver: h.Solver,
-				TimeoutMS: to, MaxSteps: h.MaxSteps, MaxDepth: h.MaxDepth, MaxPaths: h.MaxPaths, SliceS: 15, KFOpen: kfOpen, Summaries: h.Summaries, BudgetAsViolation: h.BudgetAsViolation, MaxPreempt: h.MaxPreempt})
+			hj := h
+			if *tier == "thorough" && h.MaxPreemptThorough != 0 {
+				hj.MaxPreempt = h.MaxPreemptThorough
+			}
+			jobs = append(jobs, jobFor(prop, hj, i, to, kfOpen))
 		}
 	}
 	if len(jobs) == 0 {
@@ -525,6 +575,18 @@ func cmdCheck(args []string) int {
 					confirmed++
 					violLines = append(violLines, fmt.Sprintf("VIOLATION property=%s replay=%s", prop, path))
 					fmt.Printf("counterexample %s#%d: %s | native: %s\n", v.Harness, v.Instance, v.Msg, verdict.Summary)
+				} else if v.Kind == "exec" || schedDependent(v) {
+					// executor-only evidence (write log, lockset) or a counterexample that needs a particular interleaving:
+					// the Go scheduler cannot be forced natively, so the path is re-executed in a fresh executor process
+					ok, sum := execConfirm(v, specs)
+					if ok {
+						confirmed++
+						violLines = append(violLines, fmt.Sprintf("VIOLATION property=%s replay=%s", prop, path))
+						fmt.Printf("counterexample %s#%d: %s | native (free-running scheduler): %s | executor re-execution of the recorded path and schedule: %s\n", v.Harness, v.Instance, v.Msg, verdict.Summary, sum)
+					} else {
+						refuted++
+						fmt.Printf("UNCONFIRMED counterexample %s#%d: %s | re-execution: %s file=%s\n", v.Harness, v.Instance, v.Msg, sum, path)
+					}
 				} else if v.Kind == "budget" {
 					a.inconcl = append(a.inconcl, fmt.Sprintf("%s#%d: %s; the native run of a witness finished normally (%s), so this is a bound of the executor, not a hang", v.Harness, v.Instance, v.Msg, verdict.Summary))
 					inconclusive = true
